@@ -29,7 +29,7 @@ func EnumSmall(maxN int, visit func(*Case)) {
 			faults[f] = true
 		}
 		var fl []string
-		for _, f := range []string{"none", "cberr", "cancel-before", "cancel-at", "store-read", "store-row", "sql-next", "sql-query", "badrow", "http-err", "http-500"} {
+		for _, f := range []string{"none", "cberr", "cancel-before", "cancel-at", "store-read", "store-read-deadline", "store-row", "store-row-deadline", "cancel-in-read", "cancel-in-read-err", "sql-next", "sql-query", "badrow", "http-err", "http-500", "http-deadline"} {
 			if faults[f] {
 				fl = append(fl, f)
 			}
